@@ -607,6 +607,16 @@ C16Holds(c, r) ==
                      ELSE s[3] = <<>>
 
 -----------------------------------------------------------------------------
+(* C19: every executed unsafe operation met its stated precondition.  The   *)
+(* crate (feature verif) evaluates the precondition immediately before the  *)
+(* operation; one predicate per site reached, so that the run also shows    *)
+(* which sites were exercised.                                              *)
+C19Checks(r) ==
+  IF "probes" \notin DOMAIN r THEN {}
+  ELSE {<<"C19", "preconditions_hold">>}
+       \cup {<<"C19", r.probes.sites[i][1]>> : i \in 1..Len(r.probes.sites)}
+
+-----------------------------------------------------------------------------
 (* which predicates apply to a record                                       *)
 TreeOf(r, st) == st.heap[r.r]
 
@@ -614,8 +624,8 @@ Checks(r, st) ==
   IF r.op \in {"begin", "end", "config"} THEN {}
   ELSE IF r.op = "died" THEN {<<"C17", "no_abort_or_hang">>}
   ELSE IF r.oc = "harness" THEN {<<"TOOL", "harness_error">>}
-  ELSE IF ~Ok(r) THEN {<<"C17", "no_panic">>}
-  ELSE {<<"C17", "no_panic">>} \cup C10Checks(r, st) \cup C14Checks(r, st) \cup
+  ELSE IF ~Ok(r) THEN {<<"C17", "no_panic">>} \cup C19Checks(r)
+  ELSE {<<"C17", "no_panic">>} \cup C10Checks(r, st) \cup C14Checks(r, st) \cup C19Checks(r) \cup
     CASE r.op = "source" ->
            {<<"C07", "source_is_text">>} \cup
            (IF "replace" \in Kinds(TreeOf(r, st))
@@ -791,6 +801,8 @@ Holds(c, r, st) ==
     [] c[1] \in {"C13", "C06", "C08"} /\ r.op = "law" -> LawHolds(c, r, st)
     [] c[1] = "C04" -> C04Holds(c, r, t)
     [] c[1] = "C10" -> C10Holds(c, r, st)
+    [] c = <<"C19", "preconditions_hold">> -> r.probes.failed = <<>>
+    [] c[1] = "C19" -> c[2] \notin ToSet(r.probes.failed)
     [] c[1] = "C16" -> C16Holds(c, r)
     [] c[1] = "C15" -> C15Holds(c, r)
     [] c[1] = "C14" -> C14Holds(c, r, st)
